@@ -41,8 +41,11 @@ Reset ==
   /\ resolved' = {} /\ filtered' = {} /\ formatted' = {} /\ cur' = "" /\ curDiffers' = FALSE
   /\ flags' = NoF /\ fsn' = 0 /\ inOrder' = TRUE /\ invoked' = FALSE /\ bad' = ""
 
+(* For standard input (files = <<>>) the status does not depend on --check: main.rs      *)
+(* format_string, pinned by the repository's test verify_check_l_works_with_stdin.       *)
 Invocation ==
-  /\ IsEv("Invocation") /\ check' = E.check /\ Order(phase = "idle") /\ invoked' = TRUE
+  /\ IsEv("Invocation") /\ check' = (E.check /\ Len(E.files) > 0)
+  /\ Order(phase = "idle") /\ invoked' = TRUE
   /\ UNCHANGED <<phase, mode, backup, resolved, filtered, formatted, cur, curDiffers, flags, fsn, bad>>
 
 InputStart ==
@@ -57,6 +60,11 @@ InputStart ==
 
 VersionMismatch ==
   /\ IsEv("VersionMismatch") /\ phase' = "failed" /\ Order(phase = "started")
+  /\ UNCHANGED <<check, mode, backup, resolved, filtered, formatted, cur, curDiffers, flags, fsn, bad, invoked>>
+
+(* disable_all_formatting: the input is echoed / left alone, nothing is parsed; no InputEnd follows *)
+Disabled ==
+  /\ IsEv("Disabled") /\ phase' = "ended" /\ Order(phase = "started")
   /\ UNCHANGED <<check, mode, backup, resolved, filtered, formatted, cur, curDiffers, flags, fsn, bad, invoked>>
 
 ParseRoot ==
@@ -83,7 +91,8 @@ FormatFile ==
   /\ Mark("TrEachOnce", E.path \in resolved /\ E.path \notin filtered /\ E.path \notin formatted)
   /\ formatted' = formatted \cup {E.path} /\ cur' = E.path /\ curDiffers' = FALSE
   /\ phase' = "formatting" /\ fsn' = 0
-  /\ Order(phase \in {"resolved", "emitted"})
+  (* (a session without a writer -- Session::new(config, None) -- emits nothing: Emit is optional) *)
+  /\ Order(phase \in {"resolved", "emitted", "formatting"})
   /\ UNCHANGED <<check, mode, backup, resolved, filtered, flags, invoked>>
 
 Emit ==
@@ -111,10 +120,10 @@ InputEnd ==
   (* C15: ReportedErrors::add ORs the report into the session *)
   /\ Mark(IF AsFlags(E.flags) # Or(flags, AsFlags(E.report)) THEN "TrFlagsOr" ELSE "TrAllFormatted",
           /\ AsFlags(E.flags) = Or(flags, AsFlags(E.report))
-          /\ (phase \in {"resolved", "emitted"}) => formatted = resolved \ filtered)
+          /\ (phase \in {"resolved", "emitted", "formatting"}) => formatted = resolved \ filtered)
   /\ flags' = Or(flags, AsFlags(E.flags))
   /\ phase' = "ended"
-  /\ Order(phase \in {"resolved", "emitted", "parsefailed"})
+  /\ Order(phase \in {"resolved", "emitted", "formatting", "parsefailed"})
   /\ UNCHANGED <<check, mode, backup, resolved, filtered, formatted, cur, curDiffers, fsn, invoked>>
 
 Reported ==
@@ -142,14 +151,18 @@ PanicCaught ==
 Exit ==
   /\ IsEv("Exit")
   (* C06 / C15 / C16: the exit status is a function of the accumulated flags *)
+  (* (no Invocation before it: --help / --print-config / a usage or configuration error, *)
+  (*  decided before any session exists: 0 or 1)                                          *)
   /\ Mark("TrExit",
-          E.code = IF flags.operational \/ flags.parsing \/ (check /\ (flags.diff \/ flags.check))
-                     THEN 1 ELSE 0)
+          IF invoked
+          THEN E.code = IF flags.operational \/ flags.parsing \/ (check /\ (flags.diff \/ flags.check))
+                          THEN 1 ELSE 0
+          ELSE E.code \in {0, 1})
   /\ phase' = "exited"
   /\ UNCHANGED <<check, mode, backup, resolved, filtered, formatted, cur, curDiffers, flags, fsn,
                  inOrder, invoked>>
 
-Next == Reset \/ Invocation \/ InputStart \/ VersionMismatch \/ ParseRoot \/ Resolved
+Next == Reset \/ Invocation \/ InputStart \/ VersionMismatch \/ Disabled \/ ParseRoot \/ Resolved
         \/ Filtered \/ FormatFile \/ Emit \/ FsOp \/ InputEnd \/ Reported \/ BadPath
         \/ PanicCaught \/ Exit
 Spec == Init /\ [][Next]_vars
